@@ -25,7 +25,13 @@ namespace LlgoVerif.Defer
 
 /-- `llssa.DoAction` of a defer statement, chosen by `cl/blocks` from the block it sits in:
     `DeferAlways` (entry block / unique exit block), `DeferInCond`, `DeferInLoop` (block on a cycle). -/
-inductive Kind | always | cond | loop
+inductive Kind
+  | always | cond | loop
+  /-- a `defer` inside a range-over-func body (`Builder.DeferTo`): compiled in the synthetic yield closure, it pushes
+      a node on the OWNER's list and registers a loop case of the owner (id from `owner.nextDeferID`), but is not a
+      statement of the owner's replay. In the layout these entries follow all replay statements; the model's id of
+      every defer site is its index in the layout (a renaming of llgo's ids, which are unique per owner). -/
+  | ext
   deriving DecidableEq, Repr, Inhabited
 
 /-- One `defer` statement of a function, in the order `Builder.Defer` is called (compile order).
@@ -42,9 +48,13 @@ structure Stmt where
 
 /-- `saveDeferArgsTo`: `if kind != DeferInLoop && fn.kind != vkClosure && len(args) == 0 { return nil }`
     — otherwise a node `{prev, id, [closure], args…}` is pushed on `defer.Args`. -/
-def Stmt.pushes (s : Stmt) : Bool := s.kind == .loop || s.clo || s.nargs != 0
+def Stmt.pushes (s : Stmt) : Bool := s.kind == .loop || s.kind == .ext || s.clo || s.nargs != 0
 
-def Stmt.isLoop (s : Stmt) : Bool := s.kind == .loop
+/-- the statement registers a loop case (`self.loopCases`): `DeferInLoop` statements and `DeferTo` sites.
+    (`DeferStackDrain` — the drain point after a range-over-func call — appends to the replay exactly the closure a
+    `DeferInLoop` statement appends, `loopDeferDrainer`, without registering a case: in a layout it is a `loop`
+    statement that is never executed.) -/
+def Stmt.isLoop (s : Stmt) : Bool := s.kind == .loop || s.kind == .ext
 def Stmt.isCond (s : Stmt) : Bool := s.kind == .cond
 
 /-- `self.nextBit++` for every `DeferInCond` statement: bit number of statement `k` = number of
@@ -189,6 +199,7 @@ def replay (ss : List Stmt) (exec : Call α → σ → Out ε × σ) (bits : Nat
     | .always =>
       -- no record of whether the statement was executed: it is replayed unconditionally
       afterCall rest.isEmpty (replay ss exec bits rest false) (callDefer exec k s u)
+    | .ext => replay ss exec bits rest g u      -- not a statement of the replay
 
 /-- statements with their indices -/
 def indexed : Nat → List Stmt → List (Nat × Stmt)
@@ -246,6 +257,9 @@ structure Fn where
   body : List Ev
   /-- the named result is captured by a closure (go/ssa allocates it on the heap) -/
   capR : Bool
+  /-- the function evaluates `ssa:deferstack()` at entry (it contains a range-over-func body that defers):
+      `getDeferInCurrentBlock` sets the frame up right there -/
+  entryFrame : Bool := false
   deriving DecidableEq, Repr, Inhabited
 
 structure Prog where
@@ -529,6 +543,7 @@ def execFn (cfg : Cfg) (p : Prog) : Nat → Nat → List Int → Option Nat → 
       let st := { st with store := st.store ++ [(⟨0, 0, args⟩ : Loc)] }
       let st := st.emit ⟨.F, (g : Int) :: args⟩
       let a : Act := ⟨id, none, none, 0, []⟩
+      let (a, st) := if f.entryFrame then setupFrame a st else (a, st)
       let (a, st, be) := runBody cfg (execFn cfg p fuel) f up f.body a st
       finish cfg (execFn cfg p fuel) f a st be
 
